@@ -110,6 +110,10 @@ bool TMCG_PublicKey::check
 	mpz_init(foo), mpz_init(bar);
 	try
 	{
+		// sanity check, whether m is positive
+		if (mpz_sgn(m) <= 0)
+			throw false;
+
 		// sanity check, whether y \in Z^\circ
 		if (mpz_jacobi(y, m) != 1)
 			throw false;
